@@ -1,5 +1,5 @@
 """C03 -- bounds honoured when the items fit; otherwise the excess spills beyond them."""
-from . import layer
+from . import layer, forceh
 
 PROPERTY = "C03"
 EXPLANATION = (
@@ -18,6 +18,21 @@ ASSUMPTIONS = ["floats as exact reals; round() ties-to-even", "Solver.solve cost
 
 
 def configs(tier):
+    return _layer_configs(tier) + _force_configs(tier)
+
+
+def _force_configs(tier):
+    F = forceh.make_configs
+    if tier == "quick":
+        return F([2, 3]) + F([2], algs=("overlap", "simple"), bounds=((0, 100),), hists=("reconf", "engine2", "stale", "subset"))
+    c = F([1, 2, 3], dens=(0.85, 0.5), stubws=(1, 5), bounds=((0, 100), (None, 100), (0, None), (-30, 45)))
+    c += F([2, 3], bounds=((0, 100), (None, 100)), hists=("twice", "reconf", "renodes", "engine2", "subset", "stale"))
+    c += F([4], bounds=((0, 100),))
+    c += F([2], vpsc="real")  # the real vpsc end to end (no contract stub)
+    return c
+
+
+def _layer_configs(tier):
     if tier == "quick":
         c = layer.make_configs([1, 2], walls=("l", "r", "lr")) + layer.make_configs([3], walls=("l", "r", "lr"), kinds="LCS")
         c += layer.make_configs([1, 2], walls=("", "r"), extra=dict(default_minpos=True))
@@ -35,8 +50,12 @@ def configs(tier):
 
 
 def run(e, cfg):
+    if cfg.get("harness") == "force":
+        return forceh.run(e, cfg, "C03")
     return layer.run(e, cfg, "C03")
 
 
 def replay(cfg, inputs, check, info):
+    if cfg.get("harness") == "force":
+        return forceh.replay(cfg, inputs, check, info, "C03")
     return layer.replay(cfg, inputs, check, info, "C03")
